@@ -903,14 +903,16 @@ def _file_strings(ctx, reqs, pending):
 
 
 # ------------------------------------------------------------------ 7b. copy.copy and keys mutated after insertion
-def _shallow_copies(ctx, reqs, pending):
+def _shallow_copies(ctx, reqs, pending, only_idx=None):
     """copy.copy (pydicom's shallow copy: a new object on the SAME element table), deepcopy, assignments and deletions through any of
     the objects; what every object reads at the end is compared with the model.  Oracle: a deep copy and its source never influence
     each other; a shallow copy is a distinct CodedConcept equal to its source (that it shares the content is the model's statement,
     theorem shallow_copy_shares_content, not a demand of the property)."""
     import copy as _copy
     from highdicom.sr.coding import CodedConcept
-    for idx in range(ctx.n(60, 600)):
+    for idx in range(ctx.n(60, 600) if only_idx is None else only_idx + 1):
+        if only_idx is not None and idx != only_idx:
+            continue
         r = ctx.rng('shallow', idx)
         c0 = CodedConcept(r.choice(STORE_VALUES), r.choice(STORE_SCHEMES), r.choice(STORE_MEANINGS[:3]), r.choice(STORE_VERSIONS))
         ds0 = _ds_pairs(c0)
@@ -1184,6 +1186,9 @@ def replay(ctx, case):
     if what == 'from_dataset':
         _from_dataset(sub, [], [], only=case['fd'])
         return sub.failures[:3] or None
+    if what == 'shallow-copy':
+        _shallow_copies(sub, [], [], only_idx=case['idx'])
+        return sub.failures[:2] or None
     if what == 'foreign':
         objs, _, _ = _alphabet(sub, 0)
         _foreign(sub, objs)
